@@ -27,7 +27,7 @@ WITH THE SOFTWARE OR THE USE OR OTHER DEALINGS IN THE SOFTWARE.
 
 namespace opensmt {
 
-cgId Enode::cgid_ctr = cgId_Nil+1;
+std::atomic<uint32_t> Enode::cgid_ctr{cgId_Nil+1};
 UseVectorIndex UseVectorIndex::NotValidIndex = {UINT32_MAX};
 
 Enode::Enode(SymRef symbol, span<ERef> children, ERef myRef, PTRef term) :
